@@ -34,7 +34,14 @@ IR (all JSON)
 -------------
 ir = {"kind": "inherit"|"modules", "templates": {name: [node, ...] | {"broken": source}},
       "entries": [names], "globals": {name: value}, "modules": [names whose export set is checked],
-      "autoescape": False | True | {"on_for": [template names]}  (optional; the last form is a callable by name)}
+      "autoescape": False | True | {"on_for": [template names]}  (optional; the last form is a callable by name),
+      "tglobals": {entry name: {name: value}}  (optional; template-level globals the entry is loaded with)}
+
+Template-level globals (``get_template(name, globals=...)``) belong to the entry's own context: the
+entry, its with-context includes/imports and its *direct* imports without context see them (the
+imported module sees the importing template's globals).  Whether anything further away sees them
+(include without context, imports made by an imported/included template or from a scoped block's
+derived context) is not documented: a lookup of such a name that finds nothing is Ambiguous.
 
 Escaping model: every function (template root, block, macro) escapes its own ``{{ }}`` outputs iff
 autoescaping is on *lexically* (the template's setting, changed by ``{% autoescape %}`` sections);
@@ -149,6 +156,7 @@ class Ctx:
 
     def __init__(self, parent, blocks=None, extra=frozenset(), dyn=None):
         self.dyn = dyn  # [bool]: the context's run-time autoescape setting (shared with derived contexts)
+        self.gextra = {}  # template-level globals of the template owning this context
         self.parent = parent
         self.vars = {}
         self.exported = set()
@@ -280,6 +288,8 @@ class Interp:
         self._tl = {}
         self._blocks = {}
         self.autoescape = ir.get("autoescape") or False
+        self.tglobals = {k: {n: decode(v) for n, v in d.items()} for k, d in (ir.get("tglobals") or {}).items()}
+        self.cur_tg_names = frozenset()
 
     def autoescape_for(self, tname):
         a = self.autoescape
@@ -333,9 +343,13 @@ class Interp:
 
     # -- entry points --------------------------------------------------------------------
     def render(self, tname):
+        tg = self.tglobals.get(tname, {})
+        self.cur_tg_names = frozenset(tg)
         base = dict(self.globals)
+        base.update(tg)
         base.update(self.data)
         ctx = Ctx(base)
+        ctx.gextra = tg
         out = []
         self.run_template(self.load(tname), ctx, out)
         return "".join(out)
@@ -359,8 +373,9 @@ class Interp:
             cur = root.parent
         return ctx
 
-    def make_module(self, tname, parent, extra=frozenset()):
+    def make_module(self, tname, parent, extra=frozenset(), gextra=None):
         ctx = Ctx(parent, extra=extra)
+        ctx.gextra = gextra or {}
         out = []
         self.run_template(tname, ctx, out)
         return Module(tname, {k: ctx.vars[k] for k in ctx.exported}, "".join(out))
@@ -395,6 +410,8 @@ class Interp:
             if name in ctx.extra and name not in frame.ok:
                 raise Ambiguous("block reads %r through a derived context it was not scoped into" % name)
             return ctx.parent[name]
+        if name in self.cur_tg_names:
+            raise Ambiguous("template-level global %r not visible here" % name)
         return U
 
     def visible(self, frame):
@@ -842,6 +859,13 @@ class Interp:
                 self.events.add("import_with_context")
                 return self.make_module(tname, flatd)
             self.events.add("import_without_context")
+            gx = frame.ctx.gextra
+            if gx:
+                # the imported module sees the importing template's globals: a fresh, uncached module
+                self.events.add("import_sees_template_globals")
+                parent = dict(self.globals)
+                parent.update(gx)
+                return self.make_module(tname, parent)
             return self.default_module(tname)
         finally:
             self.depth -= 1
@@ -879,9 +903,12 @@ def module_exports(ir, name, data):
     it = Interp(ir, data)
 
     def run():
+        tg = it.tglobals.get(name, {})
+        it.cur_tg_names = frozenset(tg)
         base = dict(it.globals)
+        base.update(tg)
         base.update(it.data)
-        mod = it.make_module(it.load(name), base)
+        mod = it.make_module(it.load(name), base, gextra=tg)
         vals = {}
         for k, v in mod.exports.items():
             vals[k] = to_text(v) if isinstance(v, (str, int, bool)) or v is U else {"kind": type(v).__name__}
